@@ -12,7 +12,7 @@
       (C11_order_invariant) and the geometry (C11_geometry_order_invariant_all) for ALL stacks. *) *)
 From Coq Require Import String ZArith List Bool QArith Qround Permutation Sorted Lia.
 From HD Require Import Base.Val C11_Model C11_Proofs C11_Proofs_Stack C11_Proofs_Sort C11_Proofs_Mono C11_Proofs_Rank C11_Proofs_Top
-  C11_Proofs_Perm C11_Proofs_Hint C11_Proofs_Gaps C11_Proofs_Geom.
+  C11_Proofs_Perm C11_Proofs_Hint C11_Proofs_Gaps C11_Proofs_Geom C11_Proofs_Hist.
 Import ListNotations.
 Open Scope Q_scope.
 
@@ -562,3 +562,102 @@ Example C11_geometry_ext_nonvacuous :
      VL [VZ 3; VQ 1; vvec (V3 0 0 0); vvec (V3 (3#5) (4#5) 0)]; VNone] = [].
 Proof. cbv zeta. split; vm_compute; reflexivity. Qed.
 Print Assumptions C11_geometry_ext_nonvacuous.
+
+(* ---- one multi-frame object asked several questions: the answer to a query depends on the frames and on
+   the tolerances / declarations of THAT query only.  answers ... qs = the answers of ONE object to the queries
+   qs in the order asked (run_mf_history = VL (answers ...)); a query asked after `h1` and after `h2` gets
+   the same answer - that of a fresh object.  (The model threads no state: this is what the code does today -
+   _get_stacked_volume_geometry re-reads the frame table and calls get_volume_positions with the arguments of
+   the call; the correspondence stratum mf_history ties the statement to the real object.) *)
+Theorem C11_history_independent : forall chans outch ps rowc colc hint seg h1 h2 q t1 t2,
+  nth (length h1) (answers chans outch ps rowc colc hint seg (h1 ++ q :: t1)) VNone
+  = nth (length h2) (answers chans outch ps rowc colc hint seg (h2 ++ q :: t2)) VNone.
+Proof. exact history_independent. Qed.
+Print Assumptions C11_history_independent.
+
+Theorem C11_history_answer_is_fresh : forall chans outch ps rowc colc hint seg before q after,
+  nth (length before) (answers chans outch ps rowc colc hint seg (before ++ q :: after)) VNone
+  = answer_query chans outch ps rowc colc hint seg q.
+Proof. exact history_answer. Qed.
+Print Assumptions C11_history_answer_is_fresh.
+
+(* a geometry query anywhere in a history is the geometry of C11_geometry_follows_declarations /
+   C11_geometry_none_iff / C11_geometry_duplicates_refused for the declarations made in THAT query *)
+Theorem C11_history_geometry_query : forall chans outch ps rowc colc hint seg before after rtol atol om od,
+  nth (length before) (answers chans outch ps rowc colc hint seg (before ++ QGeom rtol atol om od :: after)) VNone
+  = run_mf_geometry ps rowc colc hint rtol atol seg om od.
+Proof. exact history_geometry_query. Qed.
+Print Assumptions C11_history_geometry_query.
+
+(* the two entry points agree: get_volume (Image / Segmentation, stacked branch) assembles - with geometry g -
+   exactly when the frames are identified uniquely by (position, channel) and get_volume_geometry with the same
+   tolerances, the same gaps declaration and duplicates allowed returns g *)
+Theorem C11_volume_iff_geometry : forall chans outch ps rowc colc hint rtol atol seg om g,
+  (exists slots, channel_volume chans outch ps rowc colc hint rtol atol seg om = Ok (g, slots)) <->
+  (pairs_unique (combine chans ps) = true /\
+   multiframe_geometry ps rowc colc hint rtol atol seg (Some (eff_missing seg om)) (Some true) = Ok (Some g)).
+Proof. exact volume_iff_geometry. Qed.
+Print Assumptions C11_volume_iff_geometry.
+
+Theorem C11_volume_ambiguous_refused : forall chans outch ps rowc colc hint rtol atol seg om,
+  pairs_unique (combine chans ps) = false ->
+  channel_volume chans outch ps rowc colc hint rtol atol seg om = Err "RuntimeError"%string.
+Proof. exact volume_ambiguous_refused. Qed.
+Print Assumptions C11_volume_ambiguous_refused.
+
+Theorem C11_volume_unrecognised_refused : forall chans outch ps rowc colc hint rtol atol seg om,
+  get_volume_positions ps rowc colc (vol_opts rtol atol (eff_missing seg om) true hint) = Ok None ->
+  channel_volume chans outch ps rowc colc hint rtol atol seg om = Err "RuntimeError"%string.
+Proof. exact volume_unrecognised_refused. Qed.
+Print Assumptions C11_volume_unrecognised_refused.
+
+(* ---- get_volume_from_series applies the tolerances it was given: a series of >= 2 images is assembled only
+   if get_series_volume_positions with THE SAME rtol / atol (sort, no gaps, no duplicates, hint of the first
+   dataset) accepts it - so C11_accepted_sound / C11_irregular_rejected bound every consecutive spacing by
+   atol + rtol |S| for the tolerances of the call -, the spacing of the volume is the one reported and slice i
+   is the dataset with volume index i; and a series it rejects is refused with ValueError *)
+Theorem C11_series_volume_follows_tolerances : forall d0 d1 rest hint0 rtol atol a,
+  volume_from_series (d0 :: d1 :: rest) hint0 rtol atol = Ok a ->
+  exists idx,
+    series_volume_positions (map snd (d0 :: d1 :: rest)) hint0 (vol_opts rtol atol false false None)
+      = Ok (Some (a_spacing a, idx)) /\
+    exists ord, collect (map (fun i => zindex (Z.of_nat i) idx) (seq 0 (length (d0 :: d1 :: rest)))) = Some ord /\
+                a_ids a = map (fun j => fst (nth j (d0 :: d1 :: rest) d0)) ord.
+Proof. exact series_volume_follows_tolerances. Qed.
+Print Assumptions C11_series_volume_follows_tolerances.
+
+Theorem C11_series_volume_rejected : forall d0 d1 rest hint0 rtol atol,
+  forallb (fun d => same_orient (snd d0) (snd d)) (d1 :: rest) = true ->
+  series_volume_positions (map snd (d0 :: d1 :: rest)) hint0 (vol_opts rtol atol false false None) = Ok None ->
+  volume_from_series (d0 :: d1 :: rest) hint0 rtol atol = Err "ValueError"%string.
+Proof. exact series_volume_rejected. Qed.
+Print Assumptions C11_series_volume_rejected.
+
+(* non-vacuity: (1) the same number means different things as rtol and as atol - axial slices at distances
+   0, 33/16, 4 (mean spacing 2, both gaps off by 1/16): atol = 1/16 accepts, atol = 1/32 refuses, rtol = 1/32
+   (1/16 allowed) accepts, rtol = 1/64 refuses; (2) one object with two frames per plane asked
+   get_volume_geometry() - a geometry -, then with allow_duplicate_positions=False - None -, then the first
+   question again - the geometry again -, then get_volume() of an Image - RuntimeError, frames not identified by
+   position - and of a Segmentation whose frames of one plane belong to different segments - assembled *)
+Example C11_tolerances_and_history_nonvacuous :
+  let rowc := V3 1 0 0 in let colc := V3 0 1 0 in
+  let ds := [(1%Z, (rowc, colc, V3 0 0 (-4))); (2%Z, (rowc, colc, V3 0 0 0)); (3%Z, (rowc, colc, V3 0 0 (-33#16)))] in
+  let ps := [V3 0 0 0; V3 0 0 (-1); V3 0 0 0; V3 0 0 (-1)] in
+  mismatches
+    [run_volume_from_series ds None None (Some (1#16));
+     run_volume_from_series ds None None (Some (1#32));
+     run_volume_from_series ds None (Some (1#32)) None;
+     run_volume_from_series ds None (Some (1#64)) None;
+     run_mf_history [0;0;0;0]%Z [0%Z] ps rowc colc None false
+       [QGeom None None None None; QGeom None None None (Some false); QGeom None None None None; QVol None None None];
+     run_mf_history [1;1;2;2]%Z [1;2]%Z ps rowc colc None true [QGeom None None None (Some false); QVol None None None]]
+    [VL [vz_list [2;3;1]%Z; VQ 2; vvec (V3 0 0 0); vvec (V3 0 0 (-2))];
+     VErr "ValueError";
+     VL [vz_list [2;3;1]%Z; VQ 2; vvec (V3 0 0 0); vvec (V3 0 0 (-2))];
+     VErr "ValueError";
+     VL [VL [VZ 2%Z; VQ 1; vvec (V3 0 0 0); vvec (V3 0 0 (-1))]; VNone;
+         VL [VZ 2%Z; VQ 1; vvec (V3 0 0 0); vvec (V3 0 0 (-1))]; VErr "RuntimeError"];
+     VL [VNone; VL [VZ 2%Z; VQ 1; vvec (V3 0 0 0); vvec (V3 0 0 (-1));
+                    VL [VL [VZ 1%Z; VZ 3%Z]; VL [VZ 2%Z; VZ 4%Z]]]]] = [].
+Proof. vm_compute. reflexivity. Qed.
+Print Assumptions C11_tolerances_and_history_nonvacuous.
